@@ -350,4 +350,30 @@ def checkShutdown (params : List String) (lines : List String) : CaseResult := I
         r := { r with specs := s!"shutdown_sender_order: traces of sender {s} arrive as {qs}" :: r.specs }
     return { r with nontrivial := subs.size ≥ 2 }
 
+/-- Family `c09relay`: the context the process was created with is cancelled while its tokens go on (the context it was started
+with is alive); params `k when`. Every trace sent afterwards still reaches the subscriber of the instance's tracer: all `k` tasks
+are requested, the end event completes, the cease-flow trace arrives; a late subscriber can join and leave. -/
+def checkRelay (params lines : List String) : CaseResult := Id.run do
+  let k := (params.head?.bind String.toNat?).getD 0
+  let mut r : CaseResult := {}
+  let mut seen := false
+  for ln in lines do
+    match words ln with
+    | "relay" :: "final" :: rest =>
+      seen := true
+      let tasks := (kvNat rest "tasks").getD 0
+      let cease := (kvNat rest "cease").getD 0 == 1
+      let endc := (kvNat rest "endcomplete").getD 0 == 1
+      let joined := (kvNat rest "joined").getD 0 == 1
+      let left := (kvNat rest "left").getD 0 == 1
+      if tasks < k || !cease || !endc then
+        r := { r with specs := s!"relay_drops_after_context_cancel: after the process's context was cancelled (its tokens still running) the subscriber of the instance's tracer saw {tasks} of {k} task requests, end event completed={endc}, cease-flow trace={cease}" :: r.specs }
+      if !joined || !left then
+        r := { r with specs := s!"tracer_call_blocked: after the process's context was cancelled a new subscriber joined={joined} left={left} within the deadline" :: r.specs }
+    | "relay" :: _ => pure ()
+    | "harness-error" :: rest => r := { r with bad := ("harness-error " ++ " ".intercalate rest) :: r.bad }
+    | _ => pure ()
+  if !seen then return { r with bad := "no final line" :: r.bad }
+  return { r with nontrivial := true }
+
 end Bpmn.Driver.C09
